@@ -163,6 +163,44 @@ def wide(count, seed, maxw=140):
         yield Table(w, h, cols, f'tall{c}:{w}x{h}:s{style}')
 
 
+def midwide(seed, big=False):
+    """More than 32 / 64 objects or properties AND a non-trivial but small lattice (lattice queries are run on
+    these): scales, sparse random tables, block tables."""
+    rng = random.Random(seed * 17 + 3)
+    out = []
+    sizes = [33, 66] + ([70, 130] if big else [])
+    for n in sizes:
+        out.append(Table(n, n, [[i + 1] for i in range(n)], f'mid-nominal{n}'))
+        out.append(Table(n, n, [list(range(1, i + 2)) for i in range(n)], f'mid-chain{n}'))
+    shapes = [(65, 5, 0.5), (5, 65, 0.5), (40, 8, 0.3), (8, 40, 0.7), (34, 34, 0.04), (70, 4, 0.6)]
+    if big:
+        shapes += [(130, 5, 0.5), (5, 130, 0.5), (100, 7, 0.4), (7, 100, 0.6), (66, 66, 0.03), (200, 3, 0.5)]
+    for n, m, dens in shapes:
+        rows = [[j for j in range(1, m + 1) if rng.random() < dens] for _ in range(n)]
+        out.append(Table(n, m, rows, f'mid-rand{n}x{m}'))
+    # blocks: groups of identical rows / columns across word boundaries
+    for n in ([68] + ([132] if big else [])):
+        out.append(Table(n, 6, [[1 + (i // 23), 4 + (i % 3)] for i in range(n)], f'mid-blocks{n}x6'))
+        out.append(Table(6, n, [[j for j in range(1, n + 1) if (j + i) % 3 == 0 or j > n - 2 - i] for i in range(6)],
+                         f'mid-blocks6x{n}'))
+    return out
+
+
+def biglat(seed, big=False):
+    """Lattices of several hundred to a thousand concepts with wide levels (> 128 / > 256 members)."""
+    rng = random.Random(seed * 101 + 9)
+    out = [Table(10, 10, [[j for j in range(1, 11) if j != i + 1] for i in range(10)], 'big-contranominal10')]
+    rows = [[j for j in range(1, 15) if rng.random() < 0.7] for _ in range(14)]
+    out.append(Table(14, 14, rows, 'big-dense14x14'))
+    if big:
+        out.append(Table(9, 9, [[j for j in range(1, 10) if j != i + 1] for i in range(9)], 'big-contranominal9'))
+        out.append(Table(11, 11, [[j for j in range(1, 12) if j != i + 1] for i in range(11)], 'big-contranominal11'))
+        for k in range(3):
+            rows = [[j for j in range(1, 17) if rng.random() < 0.72] for _ in range(16)]
+            out.append(Table(16, 16, rows, f'big-dense16x16-{k}'))
+    return out
+
+
 def widesquare(seed, big=False):
     """Tables with many rows AND many columns (no lattice is ever built on these): contranominal scales,
     where every row/column is distinguishable, dense random tables and shifted diagonals."""
